@@ -212,4 +212,24 @@ def flatNew (S : Hdr → Bytes) (utf8 : Bytes → Bool) (payload : Bytes) (p u :
 def flatIntoJws (e : FlatEnc) (sig : Bytes) : Option Bytes × SigMembers :=
   (e.payload, { prot := e.protectedHeader, header := e.unprot, signature := B64.enc sig })
 
+/-- `GeneralJwsEncoder`: `new` for the first recipient, `add_recipient` for the others; every
+recipient signs over the same partially processed payload (encoded per the FIRST recipient's
+`b64`).  Returns the member-level token or the index of the rejected recipient. -/
+def generalEncode (S : Hdr → Bytes) (payload : Bytes) (detached : Bool)
+    (rs : List (Option Hdr × Option Hdr × Bytes)) : Except Nat (Option Bytes × List SigMembers) :=
+  match rs with
+  | [] => .error 0
+  | (p0, _, _) :: _ =>
+    match generalEncoder (rs.map fun r => (r.1, r.2.1)) with
+    | some i => .error i
+    | none =>
+      let pp := maybeEncode payload p0
+      let sigs := rs.map fun r =>
+        ({ prot := (signingData S pp r.1).1, header := r.2.1, signature := B64.enc r.2.2 } : SigMembers)
+      .ok (if detached then none else some pp, sigs)
+
+/-- signing input of recipient `r` of the general encoder -/
+def generalSigningInput (S : Hdr → Bytes) (payload : Bytes) (p0 p : Option Hdr) : Bytes :=
+  (signingData S (maybeEncode payload p0) p).2
+
 end IdModel.Jose
